@@ -58,7 +58,7 @@ RULE = ("every Linux Process query reachable through psutil.Process (all of psut
         "EVERY access index k of the call -- procfs accesses, per-process system calls and the accesses outside procfs "
         "(os.stat of link targets, of '(deleted)' paths of exe/cwd/fd links and smaps mappings, isfile/access of "
         "cmdline[0], tty nodes) -- (count taken from a dry run of the model) x fault "
-        "{vanish at k, EACCES at k, EPERM at k (quick: every eighth k), for tree calls: another process (parent / child "
+        "{vanish at k (whole directory; half-removed = only the entries below /proc/<pid>, quick: live kind), EACCES at k, EPERM at k (quick: every eighth k), for tree calls: another process (parent / child "
         "/ grandchild / listed pid) vanishes at k}; thorough adds every pair (deny at i, vanish at j>i). After every vanish "
         "all OS-consulting queries are called again on the same object. A case is non-trivial when the fault fires "
         "(k below the number of accesses); distinct = distinct (kind, method, fault schedule).")
@@ -74,7 +74,7 @@ ASSUMPTIONS = ["the first read of an opened procfs file is the only read access 
                "data returned by a successful access is well formed (parsing of malformed content is C06/C12/C13/C14)",
                "refusals (EACCES/EPERM) are injected on every access of the call -- per-process procfs paths of any pid and the files outside procfs (link targets, '(deleted)' paths, cmdline[0], tty nodes) -- except the global procfs files (/proc, /proc/net/*) and the /dev listing",
                "CPython exception matching and the os/io layer are modelled, not verified"]
-EXHAUSTIVE = {"quick": "all access indexes x {vanish, EACCES} (EPERM at every eighth index) for every method and all four base kinds; other-process vanish at every index of the tree calls (live kind)",
+EXHAUSTIVE = {"quick": "all access indexes x {vanish, half-removed (live kind), EACCES} (EPERM at every eighth index) for every method and all four base kinds; other-process vanish at every index of the tree calls (live kind)",
               "thorough": "the same plus all two-fault sequences (deny at i, vanish at j>i)"}
 
 
@@ -126,7 +126,8 @@ def coq_term(case):
     v = "None" if case.get("v") is None else "(Some %d%%nat)" % case["v"]
     den = "[" + "; ".join("%d%%nat" % k for k, _ in case.get("d", [])) + "]"
     ov = "[" + "; ".join("(%s, %d%%nat)" % (_g_str(p), k) for p, k in case.get("ov", [])) + "]"
-    return "run_case %s %s %d%%nat %s %s %s true true" % (LAYOUT, sc, KIND_NO[case["base"]], v, den, ov)
+    return "run_case %s %s %d%%nat %s %s %s %s true true" % (LAYOUT, sc, KIND_NO[case["base"]], v,
+                                                            "true" if case.get("h") else "false", den, ov)
 
 
 def coq_struct(case, raw):
@@ -205,6 +206,11 @@ def gen_cases(rng, tier):
             mk("D-EACCES", b, m, o, None, [[k, "EACCES"]])
             if tier != "quick" or k % 8 == 1:      # both errnos are PermissionError to Python; quick samples EPERM
                 mk("D-EPERM", b, m, o, None, [[k, "EPERM"]])
+        # V': half-removed at access k (issue 2418)
+        if tier != "quick" or b == "live":
+            for k in ks:
+                mk("VH", b, m, o, k, [])
+                cases[-1]["h"] = True
         # another process (parent / child / listed pid) vanishes at access k
         fam = "iter" if m.startswith("iter:") else m
         if fam in OTHERS and (tier != "quick" or b == "live"):
@@ -254,7 +260,7 @@ def impl_run(case, coq, env):
             return T("Skip", "as_dict attribute order differs from the one the case was generated for")
     deny = {int(k): getattr(E, e) for k, e in case.get("d", [])}
     r = W.run_case(env["work"], case["base"], m, vanish=case.get("v"), deny=deny, sticky=True,
-                   ovanish={p: k for p, k in case.get("ov", [])})
+                   ovanish={p: k for p, k in case.get("ov", [])}, half=bool(case.get("h")))
     bad_after = []
     for m2, o2 in sorted(r.get("after", {}).items()):
         if o2[0] == "exc" and o2[1] == "NoSuchProcess" and o2[2] == W.PID:
@@ -325,7 +331,7 @@ def _sched(case):
     for k, e in case.get("d") or []:
         s.append("%s at access %d" % (e, k))
     if case.get("v") is not None:
-        s.append("vanish at access %d" % case["v"])
+        s.append("%s at access %d" % ("half-removed (entries below /proc/<pid> gone)" if case.get("h") else "vanish", case["v"]))
     for p, k in case.get("ov") or []:
         s.append("pid %s vanishes at access %d" % (p, k))
     return ", ".join(s) or "no fault"
@@ -343,7 +349,7 @@ def nontrivial(case, coq, impl):
 MANIFEST = {
     "text": "Coq: a deep-embedded access-script language (Acc/Try/If/ForNames/Walk/Call/Memo, wrap_exceptions and the zombie / "
             "not-alive / readlink ladders written in it), an interpreter over a fault oracle (vanish index of the process, "
-            "vanish indexes of OTHER processes, ANY set of refused accesses, arbitrary base answers within the fault model), "
+            "whole-directory or half-removed, vanish indexes of OTHER processes, ANY set of refused accesses, arbitrary base answers within the fault model), "
             "a computable guard analysis over (gone, cache, process-in-focus gone) and its soundness theorem for ALL worlds; "
             "closed theorems that every single-process Linux query script, as_dict() and oneshot() blocks are guarded (value "
             "or NoSuchProcess-when-gone / ZombieProcess / AccessDenied with the object's pid), that parent / parents / "
